@@ -95,3 +95,5 @@ Definition zvec {A} (f : A -> Z) (n : nat) (o : outcome (list A)) : list Z :=
   match o with Val l => map f l | Raise e => repeat (zexn e) n | Undef _ => repeat zub n end.
 Definition count (x : nat) (l : list nat) : nat := length (filter (Nat.eqb x) l).
 Definition pairs (n : nat) : list edge := flat_map (fun i => map (pair i) (seq 0 n)) (seq 0 n).
+Lemma nth_map_seq {A} (f : nat -> A) n i d : i < n -> nth i (map f (seq 0 n)) d = f i.
+Proof. intros H. rewrite (nth_indep _ d (f 0)) by (rewrite map_length, seq_length; auto). rewrite map_nth, seq_nth by auto. reflexivity. Qed.
